@@ -158,4 +158,43 @@ def oneModOkB (m : Module) (sf : SymFile) : Bool :=
   decide (0 < m.size) && decide (m.base + m.size ≤ U64MAX) &&
   sf.cfis.all (fun c => decide (0 < c.size) && decide (c.addr + c.size ≤ m.size)) && disjB sf.cfis
 
+/-! ### … worlds of several modules
+
+  The same with a linear search through the module list first (`modFind`): under `worldOkB` (modules
+  with ranges, pairwise disjoint; every symbol file `oneModOkB` for its module) `gcfiSideW` implies
+  `gcfiSide` (`gcfiSide_of_world`, MdProofs/Lemmas/WalkGenSideW.lean). -/
+
+def Module.has (m : Module) (instr : Nat) : Bool := decide (m.base ≤ instr) && decide (instr < m.base + m.size)
+
+/-- the first module of the list containing `instr`, with its position and symbol file -/
+def modFind (w : World) (instr : Nat) : Option (Module × SymFile) :=
+  match w.mods.zipIdx.find? (fun x => x.1.has instr) with
+  | none => none
+  | some (m, i) => ((w.syms[i]?).join).map fun sf => (m, sf)
+
+def modsDisjB : List Module → Bool
+  | [] => true
+  | c :: rest =>
+    rest.all (fun d => decide (c.base + c.size ≤ d.base) || decide (d.base + d.size ≤ c.base)) && modsDisjB rest
+
+def worldOkB (w : World) : Bool :=
+  modsDisjB w.mods && w.mods.all (fun m => decide (0 < m.size) && decide (m.base + m.size ≤ U64MAX)) &&
+  w.mods.zipIdx.all fun x => match (w.syms[x.2]?).join with
+    | some sf => oneModOkB x.1 sf
+    | none => true
+
+def gcfiSideW (w : World) (a : Arch) : Nat → Bool → List CfiFr → Bool
+  | instr, _, [] =>
+    (match modFind w instr with
+     | some (m, sf) => (cfiCover m sf instr).isNone
+     | none => false)
+  | instr, first, c :: rest =>
+    (match (modFind w instr).bind fun x => cfiCover x.1 x.2 instr with
+     | none => false
+     | some rec =>
+       rec.adds.isEmpty &&
+       (if c.n = 0 then first && a.leafOk && tokenize rec.init == leafToks a
+        else tokenize rec.init == canonicalToks a (a.ptr * c.n) c.saves)) &&
+    gcfiSideW w a (c.ret - a.adj) false rest
+
 end MdModel.Walk
